@@ -201,15 +201,21 @@ impl Preprocessor {
     ) -> Result<(), CompileErr> {
         let name_string = decode_string(&desc.name);
         // Terminate early checking anything with a processed include type.
-        if KNOWN_DIALECTS.contains_key(&name_string) || desc.kind.is_some() {
+        if KNOWN_DIALECTS.contains_key(&name_string) {
             return Ok(());
         }
 
+        // An embedded file is a dependency too, but it isn't searched for
+        // further includes.
+        let is_embed = desc.kind.is_some();
         let (full_name, content) = self.opts.read_new_file(self.opts.filename(), name_string)?;
         includes.push(IncludeDesc {
             name: full_name.as_bytes().to_vec(),
             ..desc
         });
+        if is_embed {
+            return Ok(());
+        }
 
         let parsed = parse_sexp(Srcloc::start(&full_name), content.iter().copied())
             .map_err(|e| CompileErr(e.0, e.1))?;
